@@ -180,6 +180,7 @@ theorem followF_sound (cu : Culture) (used : Nat) (get : Getter) (fo : Follow) (
     | monthText _ => simp [followF, FollowSpec]
     | dayText _ => simp [followF, FollowSpec]
     | era => simp [followF, FollowSpec]
+    | eraC _ => simp [followF, FollowSpec]
     | calendar => simp [followF, FollowSpec]
 
 /-- the syntactic criterion with a continuation implies the per-step conditions against that continuation -/
@@ -236,7 +237,10 @@ theorem delimitedF_stepsOK (cu : Culture) (used : Nat) (get : Getter) (fo : Foll
       | era =>
         simp only [delimStep, textStepOK, Bool.and_eq_true] at hd1
         exact ⟨hvs, hd1.1, spec_danger _ _ _ hfs hd1.2⟩
-      | calendar => trivial
+      | eraC cal =>
+        simp only [delimStep, textStepOK, Bool.and_eq_true] at hd1
+        exact ⟨hvs, hd1.1, spec_danger _ _ _ hfs hd1.2⟩
+      | calendar => exact hvs
     · exact ih (lastSafe safe s) (buf ++ outStep cu used get s) hd2
         (fun hs => lastSafe_sound cu used get safe buf s hvs hb hs) hvss
 
@@ -395,9 +399,11 @@ def RepresentableSeg (tm : Tmpl) (cu : Culture) (used : Nat) (segs : List Seg) (
   (∀ sg ∈ segs, EmbOK tm y m d nod sg) ∧
   dtValueE tm used (setSegs cu y m d nod (dtBucket0 tm) segs) = .ok (some (y, m, d, nod))
 
-/-- **segmented_roundtrip**: a LocalDateTime pattern with embedded `ld<…>` / `lt<…>` parts, `DelimitedSegs`, on a value
-    its fields can hold and represent: `format` writes `outSegs`, and `parse` of that text succeeds with the value -/
+/-- **segmented_roundtrip**: a LocalDateTime pattern with embedded `ld<…>` / `lt<…>` parts (ISO template value, no
+    calendar field: patterns with the calendar field go through the all-calendar bucket), `DelimitedSegs`, on a value its
+    fields can hold and represent: `format` writes `outSegs`, and `parse` of that text succeeds with the value -/
 theorem segmented_roundtrip (tm : Tmpl) (cu : Culture) (used : Nat) (segs : List Seg) (y m d nod : Int)
+    (hc : segsUseCalendar segs = false)
     (hd : DelimitedSegs cu used true segs = true) (hv : ∀ sg ∈ segs, SegValOK y m d nod sg)
     (hr : RepresentableSeg tm cu used segs y m d nod) (hne : outSegs cu used y m d nod segs ≠ []) :
     fmtPat (.datetime tm) [y, m, d, nod] (dtGetter y m d nod) (.segmented cu used segs) = .ok (outSegs cu used y m d nod segs) ∧
@@ -406,7 +412,7 @@ theorem segmented_roundtrip (tm : Tmpl) (cu : Culture) (used : Nat) (segs : List
   obtain ⟨f, p⟩ := segs_roundtrip tm cu used y m d nod segs [] [] (dtBucket0 tm) hok
   constructor
   · simpa [fmtPat] using f
-  · simp only [parsePat, parseSegmented]
+  · simp only [parsePat, hc, Bool.false_eq_true, if_false, parseSegmented]
     rw [if_neg hne]
     simp only [List.append_nil] at p
     rw [p]
